@@ -128,6 +128,7 @@ structure AppenderDesc where
   stderr : Bool
   enc : Nat
   filters : List Nat    -- threshold levels of the surviving filters
+  tiny : Bool := false  -- rolling_file with a size limit below every record: rolls after each write
   deriving Repr, DecidableEq
 
 /-- environment: can a log file be created at this path (the harness uses the empty relative path,
@@ -145,12 +146,18 @@ def constructTrigger : Typed → Outcome Err Unit
     else .ok ()
   | _ => .ok ()
 
-/-- `FixedWindowRollerBuilder::build`: the pattern must contain `{}` -/
+/-- `FixedWindowRollerBuilder::build`: the pattern must contain `{}`, and (since /repo e76ee7b) the
+last index of the window, `base + count - 1`, must fit `u32` -/
 def constructRoller : Typed → Outcome Err Unit
   | .tagged kind _ body =>
     if kind = c!"fixed_window" then
       match Typed.asStr (body.field (c!"pattern")) with
-      | some p => if containsBraces p then .ok () else .err .badValue
+      | some p =>
+        if containsBraces p then
+          let base := (Typed.asNat (body.optField (c!"base"))).getD 0
+          let count := (Typed.asNat (body.field (c!"count"))).getD 0
+          if count > 0 ∧ base + (count - 1) > U32_MAX then .err .badValue else .ok ()
+        else .err .badValue
       | none => .ok ()
     else .ok ()
   | _ => .ok ()
@@ -167,6 +174,20 @@ def constructPolicy : Typed → Outcome Err Unit
        | none => .ok ())
     | o => o
   | _ => .ok ()
+
+/-- a size limit so small that every record exceeds it (`SizeTrigger`: roll when `len > limit`, checked
+after each write): the active file never keeps a record -/
+def TINY_LIMIT : Nat := 10
+
+def policyTiny : Option Typed → Bool
+  | some (.tagged _ _ pbody) =>
+    match pbody.field (c!"trigger") with
+    | some (.tagged kind _ tb) =>
+      kind = c!"size" && (match tb.field (c!"limit") with
+        | some (.nat n) => n < TINY_LIMIT
+        | _ => false)
+    | _ => false
+  | _ => false
 
 /-- the `Deserialize::deserialize` of the three appender kinds, after typing succeeded -/
 def constructAppender (name : Key) (filters : List Nat) (kind : Key) (body : Typed) :
@@ -187,7 +208,9 @@ def constructAppender (name : Key) (filters : List Nat) (kind : Key) (body : Typ
              | some p => constructPolicy p
              | none => .ok ()) with
       | .ok () =>
-        if fsOk path then .ok { name, kind := 2, path, append, stderr := false, enc, filters }
+        if fsOk path then
+          .ok { name, kind := 2, path, append, stderr := false, enc, filters,
+                tiny := policyTiny (body.field (c!"policy")) }
         else .err .badValue
       | .err e => .err e
       | .panic w => .panic w
